@@ -137,14 +137,19 @@ func newFakeChainNode(f *fakeChain) (ethnode.EthNode, func(), error) {
 	return node, func() { client.Close(); srv.Stop() }, err
 }
 
-var c18UniverseCache []*vlib.Identity
+var (
+	c18UniverseCache []*vlib.Identity
+	c18UniverseOnce  sync.Once
+)
 
 // c18Universe: six peer identities, two of whose ids begin with the hex digit
 // 0 and one with 00 (ids are hex strings; nothing about them is a prefix).
 func c18Universe() []*vlib.Identity {
-	if c18UniverseCache != nil {
-		return c18UniverseCache
-	}
+	c18UniverseOnce.Do(c18BuildUniverse)
+	return c18UniverseCache
+}
+
+func c18BuildUniverse() {
 	out := []*vlib.Identity{}
 	zeros := 0
 	for i := 0; len(out) < 6 && i < 100000; i++ {
@@ -158,7 +163,6 @@ func c18Universe() []*vlib.Identity {
 		}
 	}
 	c18UniverseCache = out
-	return out
 }
 
 // c18ExpectedDrops: ids to un-trust and disconnect (reference model).
